@@ -6,6 +6,7 @@ import (
 	"fmt"
 	"math/big"
 	"reflect"
+	"sort"
 	"strconv"
 	"strings"
 	"time"
@@ -40,6 +41,7 @@ type kase struct {
 	sig     []byte
 	issuer  [][]string // attribute tokens "oid=hex"
 	queries []query    // seq lines: the lookups made one after the other on ONE CertificateList object
+	strOp   *big.Int   // str lines: the cache key of this serial
 }
 
 func oidStr(o []int) string {
@@ -86,6 +88,9 @@ type query struct {
 
 func parse(line string) kase {
 	f := strings.Fields(line)
+	if len(f) == 3 && f[1] == "str" {
+		return kase{strOp: bigOf(f[2])}
+	}
 	if len(f) != 6 {
 		panic("bad c14 line")
 	}
@@ -201,7 +206,11 @@ func build(k kase) (*pkix.CertificateList, *x509.Certificate) {
 	}
 	for _, e := range k.entries {
 		cl.TBSCertList.RevokedCertificates = append(cl.TBSCertList.RevokedCertificates,
-			pkix.RevokedCertificate{SerialNumber: new(big.Int).Set(e.serial), RevocationTime: tm(e.t)})
+			// every entry carries a reason-code and an invalidity-date extension: CheckCRLForCert reports neither (the model
+			// prints reason=nil rawx=-), so code that starts reporting them shows up as a T2 difference
+			pkix.RevokedCertificate{SerialNumber: new(big.Int).Set(e.serial), RevocationTime: tm(e.t), Extensions: []pkix.Extension{
+				{Id: asn1.ObjectIdentifier{2, 5, 29, 21}, Value: []byte{0x0a, 1, 1}},
+				{Id: asn1.ObjectIdentifier{2, 5, 29, 24}, Value: []byte{0x18, 15, '2', '0', '2', '0', '0', '1', '0', '2', '0', '3', '0', '4', '0', '5', 'Z'}}}})
 	}
 	for _, e := range k.exts {
 		cl.TBSCertList.Extensions = append(cl.TBSCertList.Extensions,
@@ -251,9 +260,127 @@ func show(d *crl.RevocationData) string {
 		}
 		names = strings.Join(a, "+")
 	}
-	return fmt.Sprintf("rev=%s time=%s num=%d crit=%s non=%s ver=%d this=%d next=%d sig=%s rdns=%s names=%s",
+	reason := "nil"
+	if d.CertificateEntryExtensions.Reason != nil {
+		reason = strconv.Itoa(int(*d.CertificateEntryExtensions.Reason))
+	}
+	return fmt.Sprintf("rev=%s time=%s num=%d crit=%s non=%s ver=%d this=%d next=%d sig=%s rdns=%s names=%s fields=%s reason=%s rawx=%s",
 		rev, t, d.CRLExtensions.CRLNumber, showExts(d.UnknownCriticalCRLExtensions), showExts(d.UnknownCRLExtensions),
-		d.Version, d.ThisUpdate.Unix(), d.NextUpdate.Unix(), zv.Hex(d.CRLSignatureValue), showRDNs(d.Issuer.OriginalRDNS), names)
+		d.Version, d.ThisUpdate.Unix(), d.NextUpdate.Unix(), zv.Hex(d.CRLSignatureValue), showRDNs(d.Issuer.OriginalRDNS), names,
+		showFields(&d.Issuer), reason, showExts(d.RawCertificateEntryExtensions))
+}
+
+// showFields: the per-attribute fields of pkix.Name in struct declaration order (the model prints the same).
+func showFields(n *pkix.Name) string {
+	var items []string
+	sl := func(key string, l []string) {
+		if len(l) > 0 {
+			h := make([]string, len(l))
+			for i, v := range l {
+				h[i] = hex.EncodeToString([]byte(v))
+			}
+			items = append(items, key+":"+strings.Join(h, ";"))
+		}
+	}
+	sc := func(key, v string) {
+		if v != "" {
+			items = append(items, key+":"+hex.EncodeToString([]byte(v)))
+		}
+	}
+	sl("Country", n.Country)
+	sl("Organization", n.Organization)
+	sl("OrganizationalUnit", n.OrganizationalUnit)
+	sl("Locality", n.Locality)
+	sl("Province", n.Province)
+	sl("StreetAddress", n.StreetAddress)
+	sl("PostalCode", n.PostalCode)
+	sl("DomainComponent", n.DomainComponent)
+	sl("EmailAddress", n.EmailAddress)
+	sc("SerialNumber", n.SerialNumber)
+	sc("CommonName", n.CommonName)
+	sl("SerialNumbers", n.SerialNumbers)
+	sl("CommonNames", n.CommonNames)
+	sl("GivenName", n.GivenName)
+	sl("Surname", n.Surname)
+	sl("OrganizationIDs", n.OrganizationIDs)
+	sl("JurisdictionLocality", n.JurisdictionLocality)
+	sl("JurisdictionProvince", n.JurisdictionProvince)
+	sl("JurisdictionCountry", n.JurisdictionCountry)
+	if len(n.ExtraNames) > 0 {
+		var a []string
+		for _, x := range n.ExtraNames {
+			a = append(a, atvTok(x))
+		}
+		items = append(items, "X:"+strings.Join(a, ";"))
+	}
+	if len(items) == 0 {
+		return "-"
+	}
+	return strings.Join(items, ",")
+}
+
+// issuerOracle: the issuer sentence restated independently of FillFromRDNSequence's dispatch: Names is the flattened
+// sequence, CommonName the last string-valued 2.5.4.3 attribute, Country all string-valued 2.5.4.6 attributes in order.
+func issuerOracle(k kase, n *pkix.Name) []string {
+	var viol []string
+	var flat []string
+	cn := ""
+	var country []string
+	for _, r := range k.issuer {
+		for _, t := range r {
+			flat = append(flat, t)
+			i := strings.Index(t, "=")
+			if strings.HasPrefix(t[i+1:], "#") {
+				continue
+			}
+			b, _ := hex.DecodeString(t[i+1:])
+			switch t[:i] {
+			case "2.5.4.3":
+				cn = string(b)
+			case "2.5.4.6":
+				country = append(country, string(b))
+			}
+		}
+	}
+	var got []string
+	for _, a := range n.Names {
+		got = append(got, atvTok(a))
+	}
+	if strings.Join(got, "+") != strings.Join(flat, "+") {
+		viol = append(viol, "Issuer.Names is not the flattened issuer sequence")
+	}
+	if n.CommonName != cn {
+		viol = append(viol, "Issuer.CommonName is not the last string-valued commonName attribute")
+	}
+	if strings.Join(n.Country, "\x00") != strings.Join(country, "\x00") || len(n.Country) != len(country) {
+		viol = append(viol, "Issuer.Country is not the list of string-valued countryName attributes")
+	}
+	return viol
+}
+
+// execStr: the cache key. T2: the model's decimal rendering; T3: the key reads back as the same integer and two
+// different serials never share a key (checked against the neighbours).
+func execStr(x *big.Int) zv.Out {
+	s := x.String()
+	var viol []string
+	if y, ok := new(big.Int).SetString(s, 10); !ok || y.Cmp(x) != 0 {
+		viol = append(viol, "String() does not read back as the same integer")
+	}
+	for _, d := range []int64{-1, 1} {
+		if new(big.Int).Add(x, big.NewInt(d)).String() == s {
+			viol = append(viol, "two different serials share a cache key")
+		}
+	}
+	if new(big.Int).Neg(x).String() == s && x.Sign() != 0 {
+		viol = append(viol, "x and -x share a cache key")
+	}
+	tags := []string{fmt.Sprintf("str:digits<=%d", (len(strings.TrimPrefix(s, "-"))/8+1)*8)}
+	if x.Sign() < 0 {
+		tags = append(tags, "str:negative")
+	} else if x.Sign() == 0 {
+		tags = append(tags, "str:zero")
+	}
+	return zv.Out{Go: s, Viol: strings.Join(viol, "; "), Tags: tags}
 }
 
 var crlNumOID = []int{2, 5, 29, 20}
@@ -357,6 +484,7 @@ func oracle(k kase, serial *big.Int, mode string, d *crl.RevocationData) (viol [
 		!reflect.DeepEqual(d.Issuer.OriginalRDNS, pristine.TBSCertList.Issuer) {
 		viol = append(viol, "header fields not copied")
 	}
+	viol = append(viol, issuerOracle(k, &d.Issuer)...)
 	return viol, listed
 }
 
@@ -369,6 +497,37 @@ func scribble(d *crl.RevocationData) {
 	for i := range d.UnknownCriticalCRLExtensions {
 		d.UnknownCriticalCRLExtensions[i] = pkix.Extension{Id: asn1.ObjectIdentifier{0, 1}}
 	}
+}
+
+// issuerTags: which attribute types (dispatch arms / near misses) the issuer carries, as string or non-string value.
+func issuerTags(k kase, tags []string) []string {
+	if k.issuer == nil {
+		return append(tags, "issuer:nil")
+	}
+	seen := map[string]bool{}
+	for _, r := range k.issuer {
+		if len(r) == 0 {
+			seen["issuer:empty-rdn"] = true
+		}
+		if len(r) > 1 {
+			seen["issuer:multi-valued-rdn"] = true
+		}
+		for _, t := range r {
+			i := strings.Index(t, "=")
+			kind := "str"
+			if strings.HasPrefix(t[i+1:], "#") {
+				kind = "nonstring"
+			} else if t[i+1:] == "" {
+				kind = "empty-str"
+			}
+			seen["issuer:"+t[:i]+":"+kind] = true
+		}
+	}
+	for t := range seen {
+		tags = append(tags, t)
+	}
+	sort.Strings(tags)
+	return tags
 }
 
 func extTags(k kase, tags []string) []string {
@@ -414,6 +573,9 @@ func extOrderTag(k kase) string {
 
 func exec(line string) zv.Out {
 	k := parse(line)
+	if k.strOp != nil {
+		return execStr(k.strOp)
+	}
 	if k.queries != nil {
 		return execSeq(k)
 	}
@@ -465,6 +627,7 @@ func exec(line string) zv.Out {
 		tags = append(tags, "huge-serial")
 	}
 	tags = extTags(k, tags)
+	tags = issuerTags(k, tags)
 	nnum := 0
 	for _, e := range k.exts {
 		if eqOid(e.oid, crlNumOID) {
@@ -675,6 +838,28 @@ func serialPool(r *zv.Rng) []*big.Int {
 var issuerToks = []string{"2.5.4.3=" + hex.EncodeToString([]byte("Test CA")), "2.5.4.6=5553", "2.5.4.10=" + hex.EncodeToString([]byte("Org")),
 	"2.5.4.3=", "0.9.2342.19200300.100.1.25=636f6d", "2.5.4.5=#0102", "1.2.3.4=78"}
 
+// every attribute type FillFromRDNSequence dispatches on (12 switch arms under 2.5.4.x, 5 else-if OIDs) and near misses
+// (prefix only, one arc longer, one arc off in every position, unlisted last arc, neighbours of the long OIDs)
+var issuerOids = []string{"2.5.4.3", "2.5.4.4", "2.5.4.5", "2.5.4.6", "2.5.4.7", "2.5.4.8", "2.5.4.9", "2.5.4.10", "2.5.4.11", "2.5.4.17", "2.5.4.42", "2.5.4.97",
+	"0.9.2342.19200300.100.1.25", "1.2.840.113549.1.9.1", "1.3.6.1.4.1.311.60.2.1.1", "1.3.6.1.4.1.311.60.2.1.2", "1.3.6.1.4.1.311.60.2.1.3",
+	"2.5.4", "2.5.4.3.1", "2.5.5.3", "1.5.4.3", "2.6.4.3", "2.5.4.12", "2.5.4.0", "2.5.4.41", "1.3.6.1.4.1.311.60.2.1.4", "1.3.6.1.4.1.311.60.2.1",
+	"0.9.2342.19200300.100.1.26", "1.2.840.113549.1.9.2"}
+
+func issuerTok(r *zv.Rng) string {
+	oid := issuerOids[r.Intn(len(issuerOids))]
+	if r.Chance(12) {
+		return oid + "=#" + hex.EncodeToString(r.Bytes(r.Intn(3)))
+	}
+	switch r.Intn(4) {
+	case 0:
+		return oid + "="
+	case 1:
+		return oid + "=" + hex.EncodeToString([]byte{byte('A' + r.Intn(26))})
+	default:
+		return oid + "=" + hex.EncodeToString(r.Bytes(1+r.Intn(4)))
+	}
+}
+
 func gen(g *zv.Gen) {
 	r := g.Rng
 	hdr := func(k *kase) {
@@ -687,7 +872,11 @@ func gen(g *zv.Gen) {
 			var rdn []string
 			na := r.Intn(3)
 			for j := 0; j < na; j++ {
-				rdn = append(rdn, issuerToks[r.Intn(len(issuerToks))])
+				if r.Chance(70) {
+					rdn = append(rdn, issuerTok(r))
+				} else {
+					rdn = append(rdn, issuerToks[r.Intn(len(issuerToks))])
+				}
 			}
 			if rdn == nil {
 				rdn = []string{}
@@ -841,9 +1030,53 @@ func gen(g *zv.Gen) {
 		}
 	}
 	recs(nil)
+	genIssuer(g)
+	genStr(g)
+}
+
+// 6. issuer dispatch: every attribute type (all arms + near misses) as a string and as a non-string value, alone, twice
+//    in one RDN (second value wins the scalar fields) and split over two RDNs with an empty RDN in between.
+func genIssuer(g *zv.Gen) {
+	for _, oid := range issuerOids {
+		a, b, o := oid+"=4161", oid+"=42", oid+"=#0c0141"
+		for _, iss := range [][][]string{{{a}}, {{o}}, {{a, b}}, {{a}, {}, {b}}, {{a, o}}, {{o, b}}, {{a}, {"2.5.4.3=5a"}, {b}}, {{oid + "="}}} {
+			g.Emit(fmtCase(kase{serial: big.NewInt(1), mode: "n", ver: 1, this: 1000, next: 2000, issuer: iss}))
+		}
+	}
+}
+
+// 7. the cache key: (*big.Int).String() of boundary and random serials
+func genStr(g *zv.Gen) {
+	r := g.Rng
+	emit := func(x *big.Int) {
+		g.Emit("c14 str " + x.String())
+		if x.Sign() != 0 {
+			g.Emit("c14 str " + new(big.Int).Neg(x).String())
+		}
+	}
+	for i := int64(0); i <= 21; i++ {
+		emit(big.NewInt(i))
+	}
+	ten := big.NewInt(10)
+	p := big.NewInt(1)
+	for k := 1; k <= 45; k++ {
+		p = new(big.Int).Mul(p, ten)
+		emit(new(big.Int).Sub(p, big.NewInt(1)))
+		emit(p)
+		emit(new(big.Int).Add(p, big.NewInt(1)))
+	}
+	for k := uint(1); k <= 520; k += 7 {
+		q := new(big.Int).Lsh(big.NewInt(1), k)
+		emit(q)
+		emit(new(big.Int).Sub(q, big.NewInt(1)))
+	}
+	n := g.N(1500, 60000)
+	for i := 0; i < n; i++ {
+		emit(new(big.Int).SetBytes(r.Bytes(1 + r.Intn(40))))
+	}
 }
 
 func init() {
 	zv.Register(&zv.Prop{ID: "C14", Topic: "c14", Gen: gen, Exec: exec, Timeout: 60 * time.Second, // generous: a loaded machine must not produce a false timeout
-		Rule: "every revoked-entry list up to length 4 (quick) / 6 (thorough) over 3 serials (positive, negative, >2^128) x 4 query serials x {no cache, first-wins cache, last-wins cache, empty cache}; random CRLs (0..13 entries with duplicate, huge and negative serials; 0..5 extensions incl. CRL-number values valid and malformed in every way, look-alike OIDs, critical flags; random header and issuer); all 1-byte and boundary 2..10-byte CRL-number integers. seq lines: 2..4 lookups with different certificates, with and without cache, on ONE *pkix.CertificateList object and on cache maps built once from it — every extension list of up to 4 (thorough: 5) extensions over {CRL number, critical unknown, two non-critical unknown, critical CRL number} (CRL number / critical extension before, between and after the non-critical ones) x 8 cache-mode sequences, every entry list up to length 3 x all four queries in a row, and a fifth of the random CRLs; each lookup is compared with the model evaluated on the ORIGINAL CRL value and with the same lookup on a freshly built CRL. A case is one distinct (CRL, query or query sequence, cache mode). T3 = independent restatement of the property on the CRL described by the line (first listed entry, cache = linear, order-preserving partition, CRL number only from a CRL-number extension, copied header) + inputs are only read: after every call the CertificateList (reflect.DeepEqual with a pristine copy), the certificate and the cache maps are unchanged, also after the caller overwrites the returned extension lists (no shared backing array); and a lookup on an unrelated CRL in between does not change the answer (no state carried between CertificateLists)"})
+		Rule: "every revoked-entry list up to length 4 (quick) / 6 (thorough) over 3 serials (positive, negative, >2^128) x 4 query serials x {no cache, first-wins cache, last-wins cache, empty cache}; random CRLs (0..13 entries with duplicate, huge and negative serials; 0..5 extensions incl. CRL-number values valid and malformed in every way, look-alike OIDs, critical flags; random header; issuer RDN sequences over every attribute type FillFromRDNSequence dispatches on (12 switch arms, 5 else-if OIDs) and 12 near-miss OIDs, string / empty-string / non-string values, empty and multi-valued RDNs); all 1-byte and boundary 2..10-byte CRL-number integers. seq lines: 2..4 lookups with different certificates, with and without cache, on ONE *pkix.CertificateList object and on cache maps built once from it — every extension list of up to 4 (thorough: 5) extensions over {CRL number, critical unknown, two non-critical unknown, critical CRL number} (CRL number / critical extension before, between and after the non-critical ones) x 8 cache-mode sequences, every entry list up to length 3 x all four queries in a row, and a fifth of the random CRLs; each lookup is compared with the model evaluated on the ORIGINAL CRL value and with the same lookup on a freshly built CRL. issuer lines: every dispatched / near-miss attribute type x 8 shapes (string, non-string, twice in one RDN, split over RDNs around an empty RDN, mixed with a commonName). str lines ('c14 str <int>'): the cache key (*big.Int).String() of 0..21, 10^k-1 / 10^k / 10^k+1 (k<=45), 2^k / 2^k-1 (k<=520) and random serials up to 320 bit, each with both signs, against the model's decimal rendering. Every revoked entry carries a reason-code and an invalidity-date extension (which CheckCRLForCert does not report: reason=nil rawx=- on both sides). A case is one distinct (CRL, query or query sequence, cache mode). T3 = independent restatement of the property on the CRL described by the line (first listed entry, cache = linear, order-preserving partition, CRL number only from a CRL-number extension, copied header, Issuer.Names = flattened sequence, CommonName = last string-valued commonName, Country = all string-valued countryName values; cache key reads back as the same integer and differs from the keys of x+1, x-1, -x) + inputs are only read: after every call the CertificateList (reflect.DeepEqual with a pristine copy), the certificate and the cache maps are unchanged, also after the caller overwrites the returned extension lists (no shared backing array); and a lookup on an unrelated CRL in between does not change the answer (no state carried between CertificateLists)"})
 }
